@@ -33,7 +33,7 @@ def seed_ports(w):
     leaf = lib.create_definition(name="leaf")
     leaf.create_port(name="p", pins=2)
     top = lib.create_definition(name="top")
-    top.create_child(name="u0", reference=leaf)
+    u0 = top.create_child(name="u0", reference=leaf)
     top.create_child(name="u1", reference=leaf)
     other = lib.create_definition(name="other")
     op = s.Port(name="q")
@@ -41,6 +41,10 @@ def seed_ports(w):
     ip = s.InnerPin()
     for o in (n, op, ip):
         w.add(o)
+    # views the caller obtained before the events and keeps looking at
+    # (the pins mapping of an instance; list views of containers are snapshots of a list object that reorder
+    # assignments and bulk removals replace - no property speaks of them)
+    w.views += [(u0, "pins", u0.pins)]
 
 
 def seed_conn(w):
